@@ -86,6 +86,13 @@ def verify():
     if not sized or sized[1] <= 65537:
         raise ControlFailure("allocation range control: %s" % (sized,))
     res["alloc_range"] = sized
+    # value-altering call in an encoder (C05-L7)
+    from rules_c05 import is_value_altering_call
+
+    va = [fn.name for fn in prog.by_norm.values() for b, t in fn.all_calls() if is_value_altering_call(prog.callee_of(t)[1] or prog.callee_of(t)[0] or "")]
+    if "clamping_encode" not in va:
+        raise ControlFailure("value-altering call matcher matched %s" % va)
+    res["value_altering"] = sorted(set(va))
     # ancestor-creating filesystem call (C13-Q5)
     from rules_misc import is_ancestor_creating_call
 
